@@ -23,7 +23,8 @@ HEADER = ("From Shk Require Import Base.Prelude Model.LogCodec Model.LogRotate C
           "Open Scope Z_scope.\n")
 LISTS = [("codec_cases", "codec_case", "codec"), ("raw_cases", "raw_case", "raw"),
          ("probe_cases", "codec_case", "probe"), ("hist_cases", "hist_case", "hist"),
-         ("multi_cases", "multi_case", "multi"), ("api_cases", "api_case", "api")]
+         ("multi_cases", "multi_case", "multi"), ("api_cases", "api_case", "api"),
+         ("fetch_cases", "fetch_case", "fetch")]
 QUERIES = [
     ("Mfmt", "bad_indices fmt_model_bad codec_cases", "codec"),
     ("Mdec", "bad_indices dec_model_bad codec_cases", "codec"),
@@ -38,6 +39,7 @@ QUERIES = [
     ("Mmulti", "bad_indices multi_model_bad multi_cases", "multi"),
     ("Omulti", "bad_indices multi_oracle_bad multi_cases", "multi"),
     ("Oapi", "bad_indices api_bad api_cases", "api"),
+    ("Ofetch", "bad_indices fetch_bad fetch_cases", "fetch"),
 ]
 KNOWN_SIG = "goroutine0-file-digits-space"
 
@@ -307,7 +309,7 @@ def run(tier, seed):
                  "what each logger's listLogFiles returns, FetchEntriesFromFiles at the end; non-trivial = at least two loggers wrote and a GC ran."),
         "samples": summary["samples"],
         "distribution": {k: summary[k] for k in ("codec", "codec_entries", "codec_classes", "raw", "raw_kinds", "probe",
-                                                  "local_zone_offset_s", "hist", "hist_error", "hist_discarded_goid_glitch", "hist_log_ops", "hist_gc_ops", "hist_files_at_end", "hist_other_user_name", "hist_main_file_threshold_raised", "hist_buffer_sized_entry", "hist_own_directory_loggers", "api", "api_calls", "hist_close_reopen_ops", "hist_reopens_under_same_name", "codec_readers", "codec_longest_stream",
+                                                  "local_zone_offset_s", "hist", "hist_error", "hist_discarded_goid_glitch", "hist_log_ops", "hist_gc_ops", "hist_files_at_end", "fetch_windows", "hist_other_user_name", "hist_main_file_threshold_raised", "hist_buffer_sized_entry", "hist_own_directory_loggers", "api", "api_calls", "hist_close_reopen_ops", "hist_reopens_under_same_name", "codec_readers", "codec_longest_stream",
                                                   "multi", "multi_log_ops", "multi_gc_ops", "calibration")},
         "outside_guard_probes": {"kinds": summary["probe_kinds"], "real_roundtrip_failures": summary["probe_roundtrip_failures"]},
         "traces_validated_against_impl": summary["hist"] + summary["multi"],
@@ -369,6 +371,12 @@ def run(tier, seed):
                       % (c["Call"], c["Format"], c["NArgs"], c["ObsSev"], c["Obs"], c["Sev"], c["Format"] if c["NArgs"] == 0 else c["Fmt"]),
                       {"kind": "failing-input", "input": c, "index": idx,
                        "replay": "go: log.%s(ctx, %s%s) then Flush and decode the log file" % (c["Call"].split("/")[0], c["Format"], ", args..." if c["NArgs"] else "")})
+    for idx in vals["Ofetch"][:1]:
+        c = cases["fetch"][idx]
+        res.violation("fetch-from-time-mark-not-exactly-the-later-entries",
+                      "FetchEntriesFromFiles(mark, max) on the real main logger returned messages %s, logged after the mark: %s" % (c.get("WinGot") or [], c.get("WinWant") or []),
+                      {"kind": "failing-input", "input": c, "index": idx,
+                       "replay": "./check C16 --tier %s --seed %d (fetch window %d)" % (tier, seed, idx)})
     if summary.get("hist_error") and not res.violations:
         res.violation(None, "the real loggers could not be driven (rotation/GC part of the check did not run): %s" % summary["hist_error"],
                       {"kind": "harness-hist-error", "error": summary["hist_error"]}, no_input=True)
